@@ -121,7 +121,9 @@ def run(spec, tier, seed, collect=None):
 
     # 2. prove
     targets = spec['lean_targets']
-    ok, out = cl.lake_build(targets)
+    # Generated.All is what the correspondence driver imports: it must be rebuilt from the regenerated
+    # sources too, or the driver would read compiled modules of an earlier tree
+    ok, out = cl.lake_build(targets + ['PhQVerif.Generated.All'])
     if prebuild is not None:
         prebuild.join()
     failed = cl.failed_theorems(out) if not ok else []
@@ -427,7 +429,7 @@ def c04_search(ctx, failing, corr, broken):
             reqs.append((e['index'], fmt, [co.hex_of(*x) for x in vals], []))
             info.append((e, fmt, v, vals))
     if not reqs:
-        return c04_stdmath_search(ctx, failing, rng)
+        return c04_stdmath_search(ctx, failing, rng) + (narrowing_search(ctx, failing['NoNarrowing']) if failing.get('NoNarrowing') else [])
     res, err, rc = ctx.run_native(reqs)
     out = []
     for (e, fmt, v, vals), r in zip(info, res):
@@ -1147,6 +1149,69 @@ def close_enough(c, want, fmt, slack_bits=14):
     return abs(got - want) <= tol
 
 
+def narrowing_search(ctx, rows, seed_off=77):
+    """Failing input for a precision loss: the entry at its own numeric type against the same entry at
+    long double (for model functions: the long double overload on a long double model), on inputs with full
+    mantissas that both can represent. The two must agree to about 2^10 ulps of the lower precision."""
+    import pyfloat
+    rng = random.Random(ctx.seed + seed_off)
+    by_id = ctx.by_id
+    out, reqs, info = [], [], []
+    for (eid, bits) in rows[:80]:
+        fmt = int(bits)
+        e = by_id.get(eid)
+        if e is None:
+            continue
+        hid = re.sub(r'\[A=\d+', '[A=80', eid)
+        hi = by_id.get(hid)
+        afmt = int(re.search(r'\[A=(\d+)', eid).group(1)) if '[A=' in eid else fmt
+        low = min(fmt, afmt)
+        if hi is None or low >= 80:
+            continue
+        v = e['instances'][0]['fmts'].get(str(fmt))
+        vh = hi['instances'][0]['fmts'].get('80')
+        if v is None or vh is None or v['n_in'] != vh['n_in']:
+            continue
+        for _ in range(4):
+            vals = []
+            for i in range(v['n_in']):
+                p_ = co.FMT[32][0] if low == 32 else co.FMT[low][0]
+                mm = rng.getrandbits(p_ - 1) | (1 << (p_ - 1))
+                vals.append((False, mm, rng.randrange(-2, 3) - (p_ - 1)))
+            hx = [co.hex_of(*x) for x in vals]
+            reqs.append((e['index'], fmt, hx, []))
+            reqs.append((hi['index'], 80, hx, []))
+            info.append((e, fmt, low, hx))
+    if not reqs:
+        return []
+    res, _, _ = ctx.run_native(reqs)
+    for k, (e, fmt, low, hx) in enumerate(info):
+        a, b = res[2 * k], res[2 * k + 1]
+        if not a or not b or a.get('error') or b.get('error'):
+            continue
+        oa, ob = num_outs(a), num_outs(b)
+        if len(oa) != len(ob) or not oa:
+            continue
+        if any(c in ('nan', 'inf', '-inf') for _, c in oa + ob):
+            continue
+        fa = [co.frac_of_canon(c) for _, c in oa]
+        fb = [co.frac_of_canon(c) for _, c in ob]
+        scale = max([abs(t) for t in fb] + [Fraction(1, 10 ** 30)])
+        tol = scale * Fraction(1, 2 ** (co.FMT[low][0] - 10))
+        for i, (x_, y_) in enumerate(zip(fa, fb)):
+            if abs(x_ - y_) > tol:
+                out.append({'kind': 'precision-loss', 'entry': e['id'], 'fmt': fmt, 'index': e['index'], 'inputs': hx,
+                            'component': i,
+                            'what': '%s at %d bits gives %.21g in slot %d; the same computation in long double gives '
+                                    '%.21g: they differ by %.3g relative, i.e. the result carries far fewer than %d '
+                                    'significant bits' % (e['id'], fmt, float(x_), i, float(y_),
+                                                          float(abs(x_ - y_) / scale), co.FMT[low][0])})
+                break
+        if len(out) >= 3:
+            break
+    return out
+
+
 def models_search(which):
     def search(ctx, failing, corr, broken):
         rng = random.Random(ctx.seed + 12)
@@ -1209,6 +1274,8 @@ def models_search(which):
                     break
             if len(out) >= 5:
                 break
+        if failing.get('NoNarrowing'):
+            out += narrowing_search(ctx, failing['NoNarrowing'])
         return out
     return search
 
@@ -1234,6 +1301,75 @@ def models_corr(which, seed_off):
 # ---------------------------------------------------------------------------------------------------
 # C05 / C18
 # ---------------------------------------------------------------------------------------------------
+
+def _c05_compose(ctx, pr, f, g, fmt, vals, foff):
+    r1, _, _ = ctx.run_native([(f['index'], fmt, [co.hex_of(*x) for x in vals], [])])
+    if not r1 or not r1[0] or r1[0].get('error'):
+        return None
+    fouts = [o['t'] for o in r1[0]['outs'] if o['l'].rsplit(':', 1)[1].startswith('num')]
+    ins = []
+    for name, sz in zip(pr['g_args'], pr['g_sizes']):
+        if name == pr['cls']:
+            ins += fouts[:sz]
+        else:
+            fi = pr['f_args'].index(name)
+            ins += [co.hex_of(*x) for x in vals[foff[fi]:foff[fi] + sz]]
+    if any('nan' in t or 'inf' in t for t in ins):
+        return None
+    r2, _, _ = ctx.run_native([(g['index'], fmt, ins, [])])
+    if not r2 or not r2[0] or r2[0].get('error'):
+        return None
+    return [c for (l, c) in num_outs(r2[0])]
+
+
+def _c05_condition(ctx, pr, f, g, vals, foff, j, k):
+    """Amplification of the first relation's rounding error by the second one, measured on the real code at
+    long double: the intermediate result c = f(a, b) is perturbed by the relative amount 2^-30 and the change
+    of g(c, b)[k] is divided by 2^-30 * scale. (The exact composition is the identity, so its own
+    input-output sensitivity says nothing; the cancellation is inside.)"""
+    import pyfloat
+    r1, _, _ = ctx.run_native([(f['index'], 80, [co.hex_of(*x) for x in vals], [])])
+    if not r1 or not r1[0] or r1[0].get('error'):
+        return None
+    fouts = [o['t'] for o in r1[0]['outs'] if o['l'].rsplit(':', 1)[1].startswith('num')]
+    if any('nan' in t or 'inf' in t for t in fouts):
+        return None
+
+    def g_of(cs):
+        ins = []
+        for name, sz in zip(pr['g_args'], pr['g_sizes']):
+            if name == pr['cls']:
+                ins += cs[:sz]
+            else:
+                fi = pr['f_args'].index(name)
+                ins += [co.hex_of(*x) for x in vals[foff[fi]:foff[fi] + sz]]
+        r2, _, _ = ctx.run_native([(g['index'], 80, ins, [])])
+        if not r2 or not r2[0] or r2[0].get('error'):
+            return None
+        outs = [c for (l, c) in num_outs(r2[0])]
+        if k >= len(outs) or outs[k] in ('nan', 'inf', '-inf'):
+            return None
+        return co.frac_of_canon(outs[k])
+    base = g_of(fouts)
+    if base is None:
+        return None
+    scale = max(_val(v) for v in vals)
+    delta = Fraction(1, 1 << 30)
+    worst = Fraction(0)
+    for i in range(len(fouts)):
+        c = sexpr.hex_to_fraction(fouts[i])
+        pc = pyfloat.round_to(c * (1 + delta), 80)
+        if isinstance(pc, str):
+            return None
+        neg, m, e = sexpr.dyadic(pc) if pc != 0 else (False, 0, 0)
+        cs = list(fouts)
+        cs[i] = co.hex_of(neg, m, e)
+        got = g_of(cs)
+        if got is None:
+            return None
+        worst = max(worst, abs(got - base) / (delta * scale))
+    return worst
+
 
 def c05_search(ctx, failing, corr, broken):
     """Compose the two relations on the real code: g(f(a, b), b) must return a to a few ulps (relative
@@ -1290,6 +1426,12 @@ def c05_search(ctx, failing, corr, broken):
                 if c in ('nan', 'inf', '-inf'):
                     continue
                 if abs(co.frac_of_canon(c) - want) > scale * Fraction(1, 2 ** (p - 8)):
+                    # a pair that subtracts is ill-conditioned near cancellation (e.g. gamma close to 1): measure
+                    # the condition number of the composition at this input on the real code (long double,
+                    # each input perturbed by 2^-30) and allow that many times the usual tolerance
+                    kappa = _c05_condition(ctx, pr, f, g, vals, foff, j, k)
+                    if kappa is None or abs(co.frac_of_canon(c) - want) <= scale * Fraction(1, 2 ** (p - 8)) * (1 + kappa):
+                        continue
                     out.append({'kind': 'c05-compose', 'pair': pr['g'] + ' ∘ ' + pr['f'], 'fmt': fmt,
                                 'inputs': [co.hex_of(*x) for x in vals], 'recovered': c,
                                 'original': co.canon(want),
@@ -2029,11 +2171,38 @@ def c08_search(ctx, failing, corr, broken):
     txt = cl.lean_eval(snippet, ['PhQVerif.Core.UnitCheck', 'PhQVerif.Generated.Tables'])
     rows = re.findall(r'\("(Unit::\w+)", "((?:[^"\\]|\\.)*)", (\d+), (\[[^\]]*\]), (none|some \([^)]*\))\)', txt)
     tables = {u['name']: u for u in ctx.tables['units']}
+    # holes in the tables themselves (the library's real table objects, dumped by iteration)
+    for u in ctx.tables['units'] + ctx.tables['enums']:
+        names = {val: nm for nm, val in u['enumerators']}
+        ab = {k for k, _ in u['abbreviations']}
+        for val, nm in sorted(names.items()):
+            missing = []
+            if val not in ab:
+                missing.append('Abbreviations')
+            for f in (32, 64, 80):
+                mp = u.get('map%d' % f)
+                if mp is not None:
+                    if val not in mp['to']:
+                        missing.append('MapOfConversionsToStandard<%s>' % {32: 'float', 64: 'double', 80: 'long double'}[f])
+                    if val not in mp['from']:
+                        missing.append('MapOfConversionsFromStandard<%s>' % {32: 'float', 64: 'double', 80: 'long double'}[f])
+            if missing:
+                out.append({'kind': 'c08-table-hole', 'unit_type': u['name'], 'enumerator': nm, 'missing_from': missing,
+                            'what': 'enumerator %s::%s has no entry in %s: the unchecked find()->second on that table '
+                                    'dereferences end() for it' % (u['name'], nm, ', '.join(missing))})
     for (tname, sp, v, reads, want) in rows:
         sp = bytes(sp, 'utf-8').decode('unicode_escape').encode('latin-1').decode('utf-8') if '\\' in sp else sp
         lines, rc, err = textio(ctx, ['enum %s %s' % (tname, hexs(sp)), 'abbr %s %s' % (tname, v)])
         abbr = bytes.fromhex(lines[1].split()[0]).decode('utf-8') if len(lines) > 1 and lines[1].split()[0] != '-' else ''
         ens = {x[1]: x[0] for x in tables[tname]['enumerators']}
+        if want == 'none' or reads.strip() == '[]':
+            # the oracle cannot expand the enumerator's own symbol or the spelling (a token it does not know): it
+            # cannot judge, which is not the same as a wrong spelling
+            out.append({'kind': 'c08-unknown-symbol', 'unit_type': tname, 'spelling': sp, 'parses_to': ens.get(int(v)),
+                        'abbreviation_of_that_enumerator': abbr, 'failing_input_found': False,
+                        'what': 'the unit-symbol oracle cannot read %r or the symbol %r of %s::%s (a token missing from '
+                                'Core/Atoms.lean): the spelling cannot be judged' % (sp, abbr, tname, ens.get(int(v)))})
+            continue
         out.append({'kind': 'c08-spelling', 'unit_type': tname, 'spelling': sp,
                     'real_ParseEnumeration': lines[0] if lines else None,
                     'parses_to': ens.get(int(v)), 'abbreviation_of_that_enumerator': abbr,
@@ -2830,7 +2999,7 @@ SPECS = {
     'C12': {
         'id': 'C12', 'level': 'proof',
         'lean_targets': ['PhQVerif.Audit.C12'],
-        'checkers': [],
+        'checkers': [('NoNarrowing', 'modelEntries')],
         'correspond': models_corr(('ElasticIsotropicSolid',), 12),
         'search': models_search(('ElasticIsotropicSolid',)),
         'always_search': True, 'audit_all': False,
@@ -2842,7 +3011,7 @@ SPECS = {
     'C13': {
         'id': 'C13', 'level': 'proof',
         'lean_targets': ['PhQVerif.Audit.C13'],
-        'checkers': [],
+        'checkers': [('NoNarrowing', 'modelEntries')],
         'correspond': models_corr(('CompressibleNewtonianFluid', 'IncompressibleNewtonianFluid'), 13),
         'search': models_search(('CompressibleNewtonianFluid', 'IncompressibleNewtonianFluid')),
         'always_search': True, 'audit_all': False,
@@ -2865,7 +3034,7 @@ SPECS = {
     'C02': {
         'id': 'C02', 'level': 'proof',
         'lean_targets': ['PhQVerif.Audit.C02'],
-        'checkers': [('C02unit', 'unitEntries'), ('C02class', 'quantityEntries')],
+        'checkers': [('C02unit', 'unitEntries'), ('C02class', 'quantityEntries'), ('NoNarrowing', 'unitEntries')],
         'correspond': c02_correspond,
         'search': c02_search,
         'assumptions': ['container forms are traced for a few unit pairs per unit type (the code is one template '
@@ -2899,7 +3068,7 @@ SPECS = {
     'C04': {
         'id': 'C04', 'level': 'proof',
         'lean_targets': ['PhQVerif.Audit.C04'],
-        'checkers': [('C04arith', 'quantityEntries'), ('C04std', 'quantityEntries')],
+        'checkers': [('C04arith', 'quantityEntries'), ('C04std', 'quantityEntries'), ('NoNarrowing', 'quantityEntries')],
         'correspond': c04_correspond,
         'search': c04_search,
         'assumptions': [
